@@ -18,7 +18,7 @@ open Sshuttle.Wrap
 
 /-- Socket-wrapper / socket consistency. -/
 def SE (s : SockW) (e : ESock) : Prop :=
-  (s.exc = true → s.shutR = true ∧ s.shutW = true) ∧ (s.shutW = true → e.sawShut = true)
+  (s.exc = true → s.shutR = true ∧ s.shutW = true) ∧ (s.shutW = true ↔ e.sawShut = true)
 
 theorem SE.nowrite {s : SockW} {e : ESock} (h : SE s e) (se : Bool) : SE (s.nowrite e se).1 (s.nowrite e se).2 := by
   obtain ⟨h1, h2⟩ := h
@@ -29,31 +29,31 @@ theorem SE.nowrite {s : SockW} {e : ESock} (h : SE s e) (se : Bool) : SE (s.nowr
     simp only [hw', Bool.false_eq_true, ↓reduceIte]
     cases se
     · simp only [Bool.false_eq_true, ↓reduceIte]
-      exact ⟨fun hx => ⟨(h1 hx).1, rfl⟩, fun _ => rfl⟩
+      exact ⟨fun hx => ⟨(h1 hx).1, rfl⟩, ⟨fun _ => rfl, fun _ => rfl⟩⟩
     · simp only [↓reduceIte]
-      exact ⟨fun _ => ⟨rfl, rfl⟩, fun _ => rfl⟩
+      exact ⟨fun _ => ⟨rfl, rfl⟩, ⟨fun _ => rfl, fun _ => rfl⟩⟩
 
 theorem SE.noread {s : SockW} {e : ESock} (h : SE s e) : SE s.noread e :=
   ⟨fun hx => ⟨rfl, (h.1 hx).2⟩, h.2⟩
 
-theorem SE.seterr (s : SockW) (e : ESock) (se : Bool) (h2 : s.shutW = true → e.sawShut = true) :
+theorem SE.seterr (s : SockW) (e : ESock) (se : Bool) (h2 : s.shutW = true ↔ e.sawShut = true) :
     SE (s.seterr e se).1 (s.seterr e se).2 := by
   unfold SockW.seterr SockW.nowrite SockW.noread
   by_cases hw : s.shutW = true
   · simp only [hw, ↓reduceIte]
-    exact ⟨fun _ => ⟨rfl, rfl⟩, fun _ => h2 hw⟩
+    exact ⟨fun _ => ⟨rfl, rfl⟩, ⟨fun _ => h2.mp hw, fun _ => rfl⟩⟩
   · have hw' : s.shutW = false := by simpa using hw
     simp only [hw', Bool.false_eq_true, ↓reduceIte]
     cases se
     · simp only [Bool.false_eq_true, ↓reduceIte]
-      exact ⟨fun _ => ⟨rfl, rfl⟩, fun _ => rfl⟩
+      exact ⟨fun _ => ⟨rfl, rfl⟩, ⟨fun _ => rfl, fun _ => rfl⟩⟩
     · simp only [↓reduceIte]
-      exact ⟨fun _ => ⟨rfl, rfl⟩, fun _ => rfl⟩
+      exact ⟨fun _ => ⟨rfl, rfl⟩, ⟨fun _ => rfl, fun _ => rfl⟩⟩
 
 theorem SE.setBuf {s : SockW} {e : ESock} (h : SE s e) (b : List Bytes) : SE { s with buf := b } e := h
 
-theorem SE.env {s : SockW} {e e' : ESock} (h : SE s e) (hs : e.sawShut = true → e'.sawShut = true) : SE s e' :=
-  ⟨h.1, fun hw => hs (h.2 hw)⟩
+theorem SE.env {s : SockW} {e e' : ESock} (h : SE s e) (hs : e'.sawShut = e.sawShut) : SE s e' :=
+  ⟨h.1, by rw [hs]; exact h.2⟩
 
 theorem SE.tryConnect {s : SockW} {e : ESock} (h : SE s e) (c : ConnRes) (se : Bool) (s' : SockW) (e' : ESock)
     (ht : s.tryConnect e c se = .ok s' e') : SE s' e' := by
@@ -115,7 +115,7 @@ theorem SE.fill {s : SockW} {e : ESock} (h : SE s e) (r : RecvRes) (se : Bool) :
         generalize e.recv r = x at hs
         obtain ⟨ob, isErr, e1⟩ := x
         simp only at hs
-        have h1 : SE s e1 := h.env (fun hh => by rw [hs]; exact hh)
+        have h1 : SE s e1 := h.env hs
         cases isErr with
         | true => simp only; exact (SE.seterr s e1 se h1.2).noread
         | false =>
@@ -134,7 +134,7 @@ theorem SE.uwrite {s : SockW} {e : ESock} (h : SE s e) (b : Bytes) (r : SendRes)
   · exact h
   · simp only
     split
-    · exact h.env (fun hh => hh)
+    · exact h.env rfl
     · exact h
     · exact h.nowrite se
     · exact SE.seterr s e se h.2
@@ -431,34 +431,38 @@ theorem preSelect_okflag (p : ProxyS) (m : MuxL) : (p.preSelectFlags m).1.ok = p
 mean closed, and a handler with `ok = False` is completely finished. -/
 def FlowSock (f : Flow) : Prop :=
   (∀ p, f.c = some p → SE p.sw f.app ∧ (p.ok = false → Dead p)) ∧
-  (∀ p, f.s = some p → SE p.sw f.dst ∧ (p.ok = false → Dead p))
+  (∀ p, f.s = some p → SE p.sw f.dst ∧ (p.ok = false → Dead p)) ∧
+  (∀ p, f.s = some p → f.sEver = true) ∧ (f.sEver = false → f.dst.sawShut = false)
 
 theorem flowSock_new (c : Nat) : FlowSock (newFlow c) := by
-  constructor
+  refine ⟨?_, ?_, ?_, ?_⟩
   · intro p hp
     simp only [newFlow, Option.some.injEq] at hp
     subst hp
-    exact ⟨⟨fun h => (by cases h), fun h => (by cases h)⟩, fun h => (by cases h)⟩
+    exact ⟨⟨fun h => (by cases h), ⟨fun h => (by cases h), fun h => (by cases h)⟩⟩, fun h => (by cases h)⟩
   · intro p hp; cases hp
+  · intro p hp; cases hp
+  · intro _; rfl
 
 theorem flowSock_ev (f f' : Flow) (ev : FlowEv f f') (h : FlowSock f) : FlowSock f' := by
-  obtain ⟨hc, hs⟩ := h
+  obtain ⟨hc, hs, hA, hB⟩ := h
   cases ev with
-  | same => exact ⟨hc, hs⟩
+  | same => exact ⟨hc, hs, hA, hB⟩
   | cbC _ p m io p' m' e' hcp hcb =>
-    refine ⟨?_, hs⟩
+    refine ⟨?_, hs, hA, hB⟩
     intro q hq
     simp only [Option.some.injEq] at hq
     subst hq
     exact ⟨(hc p hcp).1.callback m io _ m' e' hcb, deadOK_callback p m f.app io _ m' e' hcb (hc p hcp).2⟩
   | cbS _ p m io p' m' e' hcp hcb =>
-    refine ⟨hc, ?_⟩
+    have hev := hA p hcp
+    refine ⟨hc, ?_, fun _ _ => hev, fun h0 => by rw [hev] at h0; cases h0⟩
     intro q hq
     simp only [Option.some.injEq] at hq
     subst hq
     exact ⟨(hs p hcp).1.callback m io _ m' e' hcb, deadOK_callback p m f.dst io _ m' e' hcb (hs p hcp).2⟩
   | preC _ p m hcp =>
-    refine ⟨?_, hs⟩
+    refine ⟨?_, hs, hA, hB⟩
     intro q hq
     simp only [Option.some.injEq] at hq
     subst hq
@@ -466,7 +470,8 @@ theorem flowSock_ev (f f' : Flow) (ev : FlowEv f f') (h : FlowSock f) : FlowSock
     rw [preSelect_okflag] at hok
     exact ((hc p hcp).2 hok).pok (preSelect_ok p m f.app)
   | preS _ p m hcp =>
-    refine ⟨hc, ?_⟩
+    have hev := hA p hcp
+    refine ⟨hc, ?_, fun _ _ => hev, hB⟩
     intro q hq
     simp only [Option.some.injEq] at hq
     subst hq
@@ -478,7 +483,7 @@ theorem flowSock_ev (f f' : Flow) (ev : FlowEv f f') (h : FlowSock f) : FlowSock
     cases e with
     | client =>
       simp only [handlerAt] at hcp
-      refine ⟨?_, hs⟩
+      refine ⟨?_, hs, hA, hB⟩
       intro q hq
       simp only [setHandler, Option.some.injEq] at hq
       subst hq
@@ -487,7 +492,8 @@ theorem flowSock_ev (f f' : Flow) (ev : FlowEv f f') (h : FlowSock f) : FlowSock
       rw [this] at hreg; cases hreg
     | server =>
       simp only [handlerAt] at hcp
-      refine ⟨hc, ?_⟩
+      have hev := hA p hcp
+      refine ⟨hc, ?_, fun _ _ => hev, hB⟩
       intro q hq
       simp only [setHandler, Option.some.injEq] at hq
       subst hq
@@ -495,22 +501,23 @@ theorem flowSock_ev (f f' : Flow) (ev : FlowEv f f') (h : FlowSock f) : FlowSock
       have := ((hs p hcp).2 hok).unregistered
       rw [this] at hreg; cases hreg
   | connect _ conn s e c hev htc =>
-    refine ⟨?_, ?_⟩
-    · intro p hp
-      obtain ⟨h1, h2⟩ := hc p hp
-      exact ⟨h1, h2⟩
-    · intro q hq
-      simp only [Option.some.injEq] at hq
-      subst hq
-      refine ⟨?_, fun h => (by cases h)⟩
-      have h0 : SE ({ connecting := true } : SockW) f.dst := ⟨fun h => (by cases h), fun h => (by cases h)⟩
-      exact h0.tryConnect conn false s e htc
-  | rmC _ p hcp hok => exact ⟨fun q hq => (by cases hq), hs⟩
-  | rmS _ p hcp hok => exact ⟨hc, fun q hq => by cases hq⟩
-  | appWrite _ b hb => exact ⟨fun p hp => ⟨(hc p hp).1.env (fun h => h), (hc p hp).2⟩, hs⟩
-  | appEof => exact ⟨fun p hp => ⟨(hc p hp).1.env (fun h => h), (hc p hp).2⟩, hs⟩
-  | dstWrite _ b hb => exact ⟨hc, fun p hp => ⟨(hs p hp).1.env (fun h => h), (hs p hp).2⟩⟩
-  | dstEof => exact ⟨hc, fun p hp => ⟨(hs p hp).1.env (fun h => h), (hs p hp).2⟩⟩
+    refine ⟨hc, ?_, fun _ _ => rfl, fun h0 => (by cases h0)⟩
+    intro q hq
+    simp only [Option.some.injEq] at hq
+    subst hq
+    refine ⟨?_, fun h => (by cases h)⟩
+    have hsaw := hB hev
+    have h0 : SE ({ connecting := true } : SockW) f.dst :=
+      ⟨fun h => (by cases h), ⟨fun h => (by cases h), fun h => (by rw [hsaw] at h; cases h)⟩⟩
+    exact h0.tryConnect conn false s e htc
+  | rmC _ p hcp hok => exact ⟨fun q hq => (by cases hq), hs, hA, hB⟩
+  | rmS _ p hcp hok =>
+    have hev := hA p hcp
+    exact ⟨hc, fun q hq => (by cases hq), fun q hq => (by cases hq), fun h0 => by rw [hev] at h0; cases h0⟩
+  | appWrite _ b hb => exact ⟨fun p hp => ⟨(hc p hp).1.env rfl, (hc p hp).2⟩, hs, hA, hB⟩
+  | appEof => exact ⟨fun p hp => ⟨(hc p hp).1.env rfl, (hc p hp).2⟩, hs, hA, hB⟩
+  | dstWrite _ b hb => exact ⟨hc, fun p hp => ⟨(hs p hp).1.env rfl, (hs p hp).2⟩, hA, hB⟩
+  | dstEof => exact ⟨hc, fun p hp => ⟨(hs p hp).1.env rfl, (hs p hp).2⟩, hA, hB⟩
 
 /-- Every flow of every world reachable from one without flows, under ANY schedule. -/
 theorem reach_flowSock (w0 : World) (h0 : w0.flows = []) (steps : List Step) :
